@@ -236,7 +236,7 @@ def write_replay(prop, obj):
     return p
 
 
-def finish(ctx, props_file, aud, cov, violations, broken_ties, assumptions, extra_obligations=0):
+def finish(ctx, props_file, aud, cov, violations, broken_ties, assumptions, extra_obligations=0, level="proof"):
     """violations: list of dicts {what, classification, replay} found on the
     implementation (concrete failing input/trace/history).
     broken_ties: list of dicts {what, detail} — a proof obligation or a
@@ -284,7 +284,7 @@ def finish(ctx, props_file, aud, cov, violations, broken_ties, assumptions, extr
     coverage["tie_breaks"] = len(broken_ties)
     if broken_ties:
         coverage["tie_break_examples"] = broken_ties[:8]
-    ev = {"property_id": ctx.prop, "tier": ctx.tier, "seed": ctx.seed, "level": "proof",
+    ev = {"property_id": ctx.prop, "tier": ctx.tier, "seed": ctx.seed, "level": level,
           "coverage": coverage, "assumptions": assumptions, "wall_s": round(time.time() - ctx.t0, 2),
           "violations": reported + (1 if rc and not reported else 0)}
     if ctx.notes:
